@@ -81,6 +81,7 @@ class Scenario:
         with self.loop:
             self.blob = BlobFile(self.loop, self.hash, None if self.late else self.decl * self.U, self._completed, self.dir)
         self.writers = {}
+        self.key = {}
         self.nwriters = rng.choice([1, 2, 2, 3, 3])
         self.plans = {w: self._plan(w) for w in range(1, self.nwriters + 1)}
         self.evs = []
@@ -143,16 +144,20 @@ class Scenario:
         e['obs'] = self.obs()
         self.evs.append(e)
 
-    def open_writer(self, w, guarded):
+    def open_writer(self, w, guarded, same=0):
+        """same > 0: the peer of writer `same` asks again (same address and port) while that attempt may still be pending"""
         ok = False
         if not guarded or self.blob.is_writeable():
             try:
                 with self.loop:
-                    self.writers[w] = self.blob.get_blob_writer(f'1.2.3.{w}', 3333)
+                    self.writers[w] = self.blob.get_blob_writer(f'1.2.3.{self.key.get(same, w)}', 3333)
                 ok = True
             except OSError:
                 ok = False
-        self.log('Open', w=w, ok=ok, guarded=guarded)
+        self.key[w] = self.key.get(same, w)
+        if not ok:
+            self.plans[w]['chunks'] = []
+        self.log('Open', w=w, ok=ok, guarded=guarded, same=same)
 
     def write(self, w):
         plan = self.plans[w]
@@ -200,6 +205,8 @@ class Scenario:
                 acts += ['job'] * 2
             if chaos and rng.random() < 0.1:
                 acts += ['close', 'delete']
+            if self.writers and len(self.plans) < WMAX and not self.plain and rng.random() < 0.06:
+                acts += ['reopen']
             if not acts:
                 break
             a = rng.choice(acts)
@@ -207,6 +214,18 @@ class Scenario:
                 self.open_writer(unopened.pop(), guarded=self.plain or rng.random() < 0.9)
             elif a == 'write':
                 self.write(rng.choice(live))
+            elif a == 'reopen':
+                # a peer asks again either while its attempt is still open (a reconnect racing the old connection) or after the
+                # callbacks of its finished attempt have run (the entry is gone from blob.writers): never in between -- a
+                # connection's next request comes after the callbacks of its previous one (see the assumptions)
+                cands = [w for w in sorted(self.writers)
+                         if not self.writers[w].closed() or (f'1.2.3.{self.key[w]}', 3333) not in self.blob.writers]
+                if not cands:
+                    continue
+                old = rng.choice(cands)
+                w2 = max(self.plans) + 1
+                self.plans[w2] = self._plan(w2)
+                self.open_writer(w2, guarded=True, same=old)
             elif a == 'step':
                 self.loop.step()
                 self.log('Step')
@@ -302,14 +321,145 @@ def leg_b(ctx):
         print(f'NOTE: {drift} of {total} replayed schedules diverged from the algorithm of BlobWrite.tla (spec drift; the property is judged by Leg C)')
 
 
+# --------------------------------------------------------------------------------------------- in-memory blobs (BlobBuffer)
+
+BTINVS = ['TBufIntegrity', 'TReadGood', 'TNeverBadBytes', 'TBufComplete', 'TBufOnce']
+
+
+class BufScenario(Scenario):
+    """the same writers and data plans on a BlobBuffer, in rounds that each end with the one-shot read"""
+
+    def __init__(self, ctx, k, rng):
+        from lbry.blob.blob_file import BlobBuffer
+        from .detloop import DetLoop
+        self.plain = True
+        self.rng = rng
+        self.dir = ctx.mkdir(f'c01b-{k}')
+        self.loop = DetLoop()
+        self.L = rng.choice([1, 2, 2, 3])
+        self.U = rng.choice([1, 16, 17, 1000, 65537])
+        self.content = bytes(rng.getrandbits(8) for _ in range(min(self.L * self.U, 4096)))
+        self.content = (self.content * (self.L * self.U // len(self.content) + 1))[:self.L * self.U]
+        self.hash = hashlib.sha384(self.content).hexdigest()
+        self.decl = self.L if rng.random() < 0.85 else rng.choice([max(1, self.L - 1), self.L + 1])
+        self.completed = 0
+        self.late = False
+        with self.loop:
+            self.blob = BlobBuffer(self.loop, self.hash, self.decl * self.U, self._completed, self.dir)
+        self.writers, self.plans, self.evs = {}, {}, []
+        self.rounds = rng.choice([1, 2, 2, 3])
+
+    def obs(self):
+        closed, pending = [True] * WMAX, [False] * WMAX
+        for w, wr in self.writers.items():
+            closed[w - 1] = bool(wr.closed())
+            pending[w - 1] = not wr.finished.done()
+        return {'verified': bool(self.blob.get_is_verified()), 'completed': self.completed, 'closed': closed, 'pending': pending}
+
+    def read(self):
+        try:
+            with self.loop, watchdog(30), self.blob.reader_context() as reader:
+                data = reader.read()
+            result = 'good' if data == self.content else 'bad'
+        except OSError:
+            result = 'refused'
+        except Exception:  # pylint: disable=broad-except
+            result = 'raises'
+        self.log('Read', result=result)
+
+    def run(self):
+        rng = self.rng
+        slot = 0
+        for _ in range(self.rounds):
+            new = []
+            for _ in range(rng.choice([1, 1, 2])):
+                if slot < WMAX:
+                    slot += 1
+                    self.plans[slot] = self._plan(slot)
+                    if rng.random() < 0.6:          # most rounds contain a correct copy, so that the next round starts from a read blob
+                        self.plans[slot] = {'kind': 'correct', 'chunks': [(0, self.L, True)] if rng.random() < 0.5 else [(i, 1, True) for i in range(self.L)]}
+                    new.append(slot)
+            budget = 200
+            while budget > 0:
+                budget -= 1
+                acts = []
+                if new:
+                    acts += ['open'] * 3
+                live = [w for w in self.writers if self.plans[w]['chunks']]
+                if live:
+                    acts += ['write'] * 4
+                if self.loop.ready_count():
+                    acts += ['step'] * 4
+                if not acts:
+                    break
+                a = rng.choice(acts)
+                if a == 'open':
+                    w = new.pop()
+                    ok = False
+                    if not self.blob.get_is_verified() and self.blob.is_writeable():     # the callers' guard (client.download_blob)
+                        try:
+                            with self.loop:
+                                self.writers[w] = self.blob.get_blob_writer(f'1.2.3.{w}', 3333)
+                            ok = True
+                        except OSError:
+                            ok = False
+                    if not ok:
+                        self.plans[w]['chunks'] = []
+                    self.log('Open', w=w, ok=ok)
+                elif a == 'write':
+                    self.write(rng.choice(live))
+                else:
+                    self.loop.step()
+                    self.log('Step')
+            self.loop.drain(limit=10_000)
+            self.log('Quiesce')
+            self.read()
+            self.loop.drain(limit=10_000)
+        self.escaped = [str(c.get('exception') or c.get('message')) for c in self.loop.exceptions]
+        return {'L': self.L, 'decl': self.decl, 'ev': self.evs}
+
+
+def leg_buffer(ctx):
+    n = 1500 if ctx.thorough else 250
+    traces, meta = [], []
+    for k in range(n):
+        sc = BufScenario(ctx, 200000 + k, ctx.rng)
+        try:
+            tr = sc.run()
+        finally:
+            sc.cleanup()
+        traces.append(tr)
+        meta.append({'unit_bytes': sc.U, 'rounds': sc.rounds, 'writers': {w: p['kind'] for w, p in sc.plans.items()}})
+        ctx.count(('buffer', sc.L, sc.decl, sc.U, tuple(e['event'] + str(e.get('w', '')) + str(e.get('result', '')) for e in tr['ev'])), nontrivial=sc.rounds >= 2)
+    cfg = tlc.make_cfg(spec='TSpec', invariants=BTINVS, constraint='Reached', postcondition='Report')
+    verdicts = tlc.validate_traces('BlobBufferTrace', cfg, traces, ctx, label='BlobBufferTrace', chunk=1500, timeout=1800)
+    for v in verdicts:
+        tr = traces[v['tid']]
+        if v['invariant']:
+            k = v.get('inv_event')
+            ctx.violation('clause-' + v['invariant'], f"clause {v['invariant']} violated on a real in-memory blob after event {k} "
+                          f"({tr['ev'][k]['event'] if k is not None and 0 <= k < len(tr['ev']) else '?'}); {meta[v['tid']]}",
+                          {'meta': meta[v['tid']], 'trace': tr})
+        elif not v['accepted']:
+            raise MachineryError(f'buffer trace {v["tid"]} not consumed (format problem) at {v["matched"]}')
+    ctx.cov['traces_validated_against_impl'] += len(traces)
+    reads = [e['result'] for t in traces for e in t['ev'] if e['event'] == 'Read']
+    ctx.leg('C-buffer', schedules=len(traces), reads=len(reads), reads_good=reads.count('good'), reads_refused=reads.count('refused'),
+            second_round_good=sum(1 for t in traces if [e['result'] for e in t['ev'] if e['event'] == 'Read'][1:].count('good')))
+    if reads.count('good') < len(traces) // 4:
+        raise MachineryError('vacuous buffer leg: hardly any read returned the content')
+
+
 def run(ctx):
     leg_a(ctx)
     leg_b(ctx)
     leg_c(ctx)
+    leg_buffer(ctx)
     ctx.cov['rule'] = ('Leg A: all states of BlobWrite.tla in the listed configurations. Leg C: one seeded schedule per case: blob of '
                        '1-4 units x unit size 1 B..1 MiB (incl. exactly 2 MiB), declared length right/short/long, 1-3 writers each '
                        'sending correct / corrupted / truncated / over-long / unrelated data in random chunkings, interleaved with '
-                       'single loop callbacks and executor completions (12% of schedules also call close()/delete()); distinct = '
+                       'single loop callbacks and executor completions (12% of schedules also call close()/delete()); the same on in-memory '
+                       'BlobBuffer objects in rounds that end with the one-shot read (BlobBufferTrace.tla); distinct = '
                        'distinct (sizes, event sequence); non-trivial = at least two writers.')
     ctx.assumptions += ['SHA-384 collision resistance (abstracted as: digest equal iff exactly the right units)',
                         "a connection's next chunk is delivered after the callbacks of its previous chunk (asyncio transports)"]
